@@ -250,7 +250,7 @@ func cmdCheck(args []string) int {
 			defer wg.Done()
 			sem <- struct{}{}
 			defer func() { <-sem }()
-			if atomic.LoadInt32(&nFailed) >= 4 && r.Obl.Kind != "vacuity" {
+			if atomic.LoadInt32(&nFailed) >= 4 && r.Obl.Kind != "vacuity" && os.Getenv("GOVC_NOCAP") == "" {
 				// enough violations to report; the remaining obligations are not attempted
 				r.Status = "skipped"
 				return
